@@ -345,7 +345,9 @@ def G1():
                 [Row('A', 'e0', 'B', act=('seq', [1, 2, 3]), guard=('and', 1, ('or', 2, ('not', 3)))),
                  Row('A', 'e0', None, act=4, guard=('not', ('and', 4, 1))),
                  Row('B', 'e0', 'A', act=('seq', [5]), guard=('or', ('not', 1), 2)),
-                 Row('B', 'e1', None, act=6, guard=('and', ('not', 2), ('not', 3)))])
+                 Row('B', 'e1', None, act=6, guard=('and', ('not', 2), ('not', 3))),
+                 Row('B', 'e2', 'A', None, guard=('or', 7, ('not', 8))),      # guard-only external row (Row<S,E,T,none,G>)
+                 Row('A', 'e1', 'B', None, guard=9)])
     return Program(m, ['e0', 'e1', 'e2'])
 
 
